@@ -110,12 +110,14 @@ impl<'a> Case<'a> {
             note,
         }
     }
+    /// Identification of the running case for the watchdog: grammar, rule and escaped input separated by
+    /// U+0001 (so that the watchdog can re-run exactly this case in a fresh process), then a readable tail.
     fn id(&self) -> String {
         format!(
-            "{}:{}:{:?}:{:?}[{}..{}]:{:?}",
+            "{}\u{1}{}\u{1}{}\u{1}{:?}[{}..{}]:{:?}",
             self.e().id,
             self.e().rules[self.ri].name,
-            self.input,
+            enumerate::escape(self.input),
             self.form,
             self.a,
             self.b,
@@ -138,6 +140,10 @@ impl<'a> Case<'a> {
 /// The grammar is not well-founded on this input (a repetition iterates without progress or the
 /// evaluation diverges): outside every property's statement, and the real parsers would not return.
 fn ill_founded(g: &Grammar, ri: usize, input: &str) -> bool {
+    // self-test of the watchdog only: let the real parser loop on a non-progressing repetition
+    if std::env::var("PEGX_SELFTEST_NO_ILLFOUNDED_FILTER").is_ok() {
+        return false;
+    }
     let r = m::run(g, ri, input, "", &[], false, Atom::NonAtomic);
     r.diverged || r.nonprogress
 }
